@@ -148,7 +148,7 @@ def gen(seed):
         override = rng.randint(0, fp - 1)
         if kind != 'oversize':
             ln = max(1, min(ln, (fp - override) * ps))
-    mode = rng.choice(['clean', 'clean', 'lossy', 'negative', 'dead', 'chatter', 'chatter-dead'])
+    mode = rng.choice(['clean', 'clean', 'lossy', 'negative', 'dead', 'chatter', 'chatter-dead', 'late', 'late'])
     rates = {}
     if mode == 'lossy':
         rates['flash'] = [0.15, 0.15, 0.0]
@@ -162,6 +162,15 @@ def gen(seed):
         # sent before a queued negative reply was read would be indistinguishable from one sent after it
         rates['flash'] = [0.2, 0.2, 0.0]
         knobs['chatter'] = {'period': rng.choice([0.1, 0.7, 2.0]), 'kinds': rng.choice([[0], [1], [2], [3], [0, 1, 2, 3]])}
+        # handing a packet to the driver takes a moment (radio out-queue): the answer to a retransmitted duplicate then
+        # arrives while the next pages are being uploaded
+        knobs['send_duration'] = rng.choice([0.0, 0.0005, 0.002])
+    elif mode == 'late':
+        # slow erases: some flash-write commands are carried out but answered after the 2.5 s time-out, so the library
+        # retransmits them and a duplicate answer is under way while the next pages are being uploaded
+        rates['flash'] = [0.1, 0.1, 0.1, 0.25]
+        knobs['late_delay'] = rng.choice([2.6, 3.0, 4.9])
+        knobs['send_duration'] = rng.choice([0.0, 0.0005, 0.002])
     elif mode == 'chatter-dead':
         rates['flash'] = [0.5, 0.5, 0.0]
         knobs['chatter'] = {'period': rng.choice([0.1, 0.7, 2.0]), 'kinds': rng.choice([[0], [1], [2], [3], [0, 1, 2, 3]])}
@@ -195,6 +204,18 @@ def directed(tier):
                                         'chatter': {'period': period, 'kinds': kinds}},
                               'forced': list(pat), 'image_len': 64 * 5 + 10, 'image_seed': 5, 'override': None,
                               'progress_cb': False})
+    # a duplicate answer that arrives while the next pages are being uploaded (an unrelated packet made the library
+    # retransmit a command the target had carried out; handing packets to the driver takes 2 ms each) must be discarded
+    # before the next flash-write: that one is lost on its first transmission(s)
+    for period in (0.001, 0.0015, 0.003):
+        for pat in ((0, 0, 1, 0, 0, 0, 0, 0, 0, 0, 0, 0), (0, 0, 1, 1, 0, 0, 0, 0, 0, 0, 0, 0), (0, 0, 0, 1, 0, 0, 0, 0, 0, 0, 0, 0),
+                    (0, 0, 2, 0, 0, 0, 0, 0, 0, 0, 0, 0)):
+            n += 1
+            plans.append({'seed': 990000 + n, 'scenario': 'directed-duplicate-answer-during-upload', 'ops': [], 'geo': geo,
+                          'knobs': {'line_mean': 0, 'p_stall': 0.0, 'lat': (0.001, 0.001), 'rates': {},
+                                    'chatter': {'period': period, 'kinds': [0], 'max': 1}, 'send_duration': 0.002},
+                          'forced': list(pat), 'image_len': 64 * 5 + 10, 'image_seed': 5, 'override': None,
+                          'progress_cb': False})
     return plans
 
 
@@ -420,9 +441,10 @@ def _write_failed(writes):
     for (t, tid, bpage, fpage, n, outcome) in writes:
         attempts.setdefault((bpage, fpage, n), []).append(outcome)
     for outs in attempts.values():
-        if 3 in outs:
+        answered = [o for o in outs if o in (0, 3, 4)]
+        if answered and answered[0] == 3:
             return True
-        if not [o for o in outs if o == 0] and len(outs) >= 6:
+        if not answered and len(outs) >= 6:
             return True
     return False
 
@@ -441,6 +463,16 @@ def execute(ctx):
     tgt = SimBootTarget(sim, ctx.faults, {tid: geo})
     if plan.get('forced') is not None:
         tgt.forced = list(plan['forced'])
+    w.send_duration = ctx.knobs.get('send_duration', 0.0)
+    if ctx.knobs.get('late_delay'):
+        tgt.late_replies = True
+        tgt.late_delay = ctx.knobs['late_delay']
+    if ctx.knobs.get('late_delay') or ctx.knobs.get('chatter'):
+        tgt.evl = []
+        w.on_down_delivered = lambda link, h, d: tgt.evl.append(('down', d[0])) if (
+            h == 0xFF and len(d) >= 2 and d[1] == 0x18) else None
+        w.on_uplink = lambda link, pk: tgt.evl.append(('tx', pk.data[0])) if (
+            pk.header == 0xFF and len(pk.data) >= 2 and pk.data[1] == 0x18) else None
     w.add_device('boot', tgt)
     w.install()
     ctx.notes['nontrivial'] = plan['scenario'].startswith('directed')
@@ -475,6 +507,13 @@ def execute(ctx):
             def tick():
                 if 'ok' in res or 'exc' in res:
                     return
+                if ch.get('max') is not None:
+                    # a single unrelated packet, right after the first flash-write command was received
+                    if not tgt.writes:
+                        sim.after(ch['period'] / 4, tick)
+                        return
+                    if tgt.chatter_sent >= ch['max']:
+                        return
                 tgt.chatter(ch['kinds'][tgt.chatter_sent % len(ch['kinds'])], tid)
                 sim.after(ch['period'], tick)
             sim.after(ch['period'], tick)
@@ -505,7 +544,51 @@ def execute(ctx):
                   list(tgt.writes), res)
 
 
+LATE_TAG = ' [a duplicate flash-write answer was delivered while a later command was waiting for its own answer: the ' \
+           'answers carry no sequence number]'
+
+
 def oracle_target(ctx, tgt, tid, ps, bp, fp, start, image, fits, cmds, loads, writes, res):
+    mark = len(ctx.violations)
+    _oracle_target(ctx, tgt, tid, ps, bp, fp, start, image, fits, cmds, loads, writes, res)
+    if getattr(tgt, 'evl', None) is None or len(ctx.violations) == mark:
+        return
+    # a command that was carried out but answered late is retransmitted and answered again; the late answer is a
+    # duplicate.  If it is delivered before the next command is transmitted the library has to discard it (it flushes the
+    # downlink before every flash-write); delivered later it is indistinguishable from the answer to that command
+    # (order of events on the link: every flash-write transmission and every delivered flash-write answer, in true order;
+    # transmissions correspond one to one to `writes`, deliveries to the writes that produce an answer)
+    evl = [e for e in getattr(tgt, 'evl', []) if e[1] == tid]
+    tx_pos = [i for i, e in enumerate(evl) if e[0] == 'tx']
+    down_pos = [i for i, e in enumerate(evl) if e[0] == 'down']
+    ambiguous = False
+    if len(tx_pos) != len(writes):
+        ambiguous = True           # cannot be attributed: stay on the safe side
+    else:
+        replying = [j for j, w_ in enumerate(writes) if w_[5] in (0, 3, 4)]
+        seen_first = set()
+        for r_i, j in enumerate(replying):
+            key = (writes[j][2], writes[j][3], writes[j][4])
+            if key not in seen_first:
+                seen_first.add(key)
+                continue
+            # a duplicate answer: where was it delivered relative to the first transmission of the next command?
+            nxt = [jj for jj in range(j + 1, len(writes)) if (writes[jj][2], writes[jj][3], writes[jj][4]) != key]
+            if not nxt:
+                continue
+            if r_i >= len(down_pos) or down_pos[r_i] > tx_pos[nxt[0]]:
+                ambiguous = True
+    if ambiguous:
+        ctx.probe('late duplicate answer delivered during a later flash-write')
+        # one signature for the whole family (what goes wrong afterwards - pages missing, no abort, an abort without a
+        # failure - follows from which answer was mistaken for which)
+        for v in ctx.violations[mark:]:
+            v['msg'] = '%s: %s' % (v['sig'], v['msg'])
+            v['sig'] = 'C12/4 answer-attributed-to-wrong-command' + LATE_TAG
+        del ctx.violations[mark + 1:]
+
+
+def _oracle_target(ctx, tgt, tid, ps, bp, fp, start, image, fits, cmds, loads, writes, res):
     """Everything the statement says about flashing one image into one target.  cmds/loads/writes: the commands the
     target received for this image; res: {'exc'|'ok', 'n_after', 'n_late'} of the flashing call."""
     g = tgt.t[tid]
@@ -588,12 +671,14 @@ def oracle_target(ctx, tgt, tid, ps, bp, fp, start, image, fits, cmds, loads, wr
         outs = attempts[k]
         if len(outs) > 6:
             ctx.violation('4', 'flash-write-sent-more-than-6-times', 'command %r sent %d times' % (k, len(outs)))
-        answered = [o for o in outs if o in (0, 3)]
-        if 3 in outs and outs[-1] != 3 and outs.index(3) < len(outs) - 1:
+        # the link is FIFO: the answers to the transmissions of one command arrive in transmission order and the first
+        # one decides (a late positive answer precedes whatever the retransmitted duplicate was answered with)
+        answered = [o for o in outs if o in (0, 3, 4)]
+        if answered and answered[0] == 3 and outs[-1] != 3 and outs.index(3) < len(outs) - 1 and 4 not in outs:
             ctx.violation('4', 'continued-after-negative-reply', 'command %r outcomes %r' % (k, outs))
         if not answered and len(outs) >= 6:
             failed = (k, 'unanswered')
-        if 3 in outs:
+        if answered and answered[0] == 3:
             failed = (k, 'negative')
         if failed:
             break
